@@ -86,6 +86,10 @@ fn bbs(b: u64) -> Vec<String> {
 }
 
 pub fn check_all(run: &Run) {
+    check_all_opts(run, false)
+}
+/// `light`: without the in-process ordered-pair sweep of line / between (used by the child processes)
+pub fn check_all_opts(run: &Run, light: bool) {
     let ev = |n: u64| {
         run.evaluations.fetch_add(n, Ordering::Relaxed);
     };
@@ -166,6 +170,10 @@ pub fn check_all(run: &Run) {
                         noises.push((1u64 << a) | (1u64 << b) | (1u64 << c));
                     }
                 }
+            }
+            if light {
+                // child processes: the five base patterns only
+                noises.truncate(5);
             }
             for occ_bits in 0..16u32 {
                 let mut occ = 0u64;
@@ -276,7 +284,9 @@ pub fn check_all(run: &Run) {
             && l.to_index() == s as usize
             && l.to_int() == s
             && ALL_SQUARES[s as usize] == l
-            && Square::new(s + 64) == l;
+            && Square::new(s + 64) == l
+            && Square::new(s + 128) == l
+            && Square::new(s + 192) == l;
         if !ok {
             fail(run, "square-bijection", "", format!("make_square/get_rank/get_file/to_index/ALL_SQUARES inconsistent at {}", sqn(s)), json!({"kind": "geometry", "fn": "bijection", "a": sqn(s)}));
         }
@@ -316,6 +326,9 @@ pub fn check_all(run: &Run) {
     // over the complete 64x64 domain of between and line: the first call's answer is ignored, the second
     // is compared with the definition.
     for (name, f) in [("line", chess::line as fn(Square, Square) -> BitBoard), ("between", chess::between as fn(Square, Square) -> BitBoard)] {
+        if light {
+            break;
+        }
         for a in 0..64u8 {
             for b in 0..64u8 {
                 guard::crumb_text(&format!("{name}({}, {}) as the earlier call", sqn(a), sqn(b)));
@@ -346,9 +359,54 @@ pub fn check_all(run: &Run) {
 
 /// Child process: ONE earlier call in a fresh process (all lazily built or cached state of the
 /// library is in its initial state), then the complete domain as later calls.
+/// First calls of the OTHER geometry functions (index k): after one of them, in a fresh process, the whole
+/// enumeration of the module must still hold.
+pub fn other_first_calls() -> Vec<(String, Box<dyn Fn() + Send + Sync>)> {
+    let mut v: Vec<(String, Box<dyn Fn() + Send + Sync>)> = vec![];
+    for s in 0..64u8 {
+        v.push((format!("get_king_moves({})", sqn(s)), Box::new(move || { let _ = chess::get_king_moves(lsq(s)); })));
+        v.push((format!("get_knight_moves({})", sqn(s)), Box::new(move || { let _ = chess::get_knight_moves(lsq(s)); })));
+        v.push((format!("get_rook_rays({})", sqn(s)), Box::new(move || { let _ = chess::get_rook_rays(lsq(s)); })));
+        v.push((format!("get_bishop_rays({})", sqn(s)), Box::new(move || { let _ = chess::get_bishop_rays(lsq(s)); })));
+        for c in [Color::White, Color::Black] {
+            v.push((format!("get_pawn_attacks({}, {:?}, all)", sqn(s), c), Box::new(move || { let _ = chess::get_pawn_attacks(lsq(s), c, !chess::EMPTY); })));
+            v.push((format!("get_pawn_quiets({}, {:?}, none)", sqn(s), c), Box::new(move || { let _ = chess::get_pawn_quiets(lsq(s), c, chess::EMPTY); })));
+            v.push((format!("get_pawn_moves({}, {:?}, all)", sqn(s), c), Box::new(move || { let _ = chess::get_pawn_moves(lsq(s), c, !chess::EMPTY); })));
+        }
+    }
+    for i in 0..8usize {
+        v.push((format!("get_rank(#{i})"), Box::new(move || { let _ = chess::get_rank(ALL_RANKS[i]); })));
+        v.push((format!("get_file(#{i})"), Box::new(move || { let _ = chess::get_file(ALL_FILES[i]); })));
+        v.push((format!("get_adjacent_files(#{i})"), Box::new(move || { let _ = chess::get_adjacent_files(ALL_FILES[i]); })));
+    }
+    v
+}
+
 pub fn first_call_worker(name: &str, a: u8, b: u8) -> i32 {
-    let f = if name == "line" { chess::line as fn(Square, Square) -> BitBoard } else { chess::between as fn(Square, Square) -> BitBoard };
-    let _ = guard::lib(|| f(lsq(a), lsq(b)).0);
+    if name == "other" {
+        let k = a as usize * 64 + b as usize;
+        let calls = other_first_calls();
+        if let Some((_, f)) = calls.get(k) {
+            let _ = guard::lib(|| f());
+        }
+        let run = Run::new("C16", Tier::Quick, COUNTERS);
+        check_all_opts(&run, true);
+        println!("{}", if run.has_violation() { "MISMATCH the complete enumeration fails afterwards" } else { "OK" });
+        return 0;
+    }
+    let base = name.trim_end_matches(|c| c == '2' || c == 'T');
+    let f = if base == "line" { chess::line as fn(Square, Square) -> BitBoard } else { chess::between as fn(Square, Square) -> BitBoard };
+    if name.ends_with('2') {
+        // two degenerate first calls
+        let _ = guard::lib(|| f(lsq(a), lsq(a)).0);
+        let _ = guard::lib(|| f(lsq(b), lsq(b)).0);
+    } else if name.ends_with('T') {
+        // the first call is made on another thread
+        let _ = std::thread::spawn(move || guard::lib(|| f(lsq(a), lsq(b)).0)).join();
+    } else {
+        let _ = guard::lib(|| f(lsq(a), lsq(b)).0);
+    }
+    let name = base;
     for c in 0..64u8 {
         for d in 0..64u8 {
             if c == d && name == "line" {
@@ -387,6 +445,20 @@ pub fn fresh_process_first_calls(run: &Run, only: Option<(&str, u8, u8)>) {
                     }
                 }
             }
+            // two degenerate first calls f(a, a), f(b, b); the first call made on another thread
+            for (n2, nt) in [("line2", "lineT"), ("between2", "betweenT")] {
+                for a in 0..64u8 {
+                    for b in [(a + 1) % 64, (a + 8) % 64, (a + 9) % 64, 63 - a] {
+                        jobs.push((n2, a, b));
+                    }
+                    jobs.push((nt, a, a));
+                    jobs.push((nt, a, (a + 9) % 64));
+                }
+            }
+            // one first call of every other geometry function, then the whole enumeration
+            for k in 0..other_first_calls().len() {
+                jobs.push(("other", (k / 64) as u8, (k % 64) as u8));
+            }
         }
     }
     jobs.par_iter().for_each(|(name, a, b)| {
@@ -399,7 +471,8 @@ pub fn fresh_process_first_calls(run: &Run, only: Option<(&str, u8, u8)>) {
                 let txt = String::from_utf8_lossy(&o.stdout);
                 if let Some(l) = txt.lines().find(|l| l.starts_with("MISMATCH")) {
                     let w: Vec<&str> = l.splitn(4, ' ').collect();
-                    fail(run, name, "answer depends on the first call made in the process", format!("in a fresh process, after {name}({}, {}): {name}({}, {}) gives {}", sqn(*a), sqn(*b), w.get(1).unwrap_or(&"?"), w.get(2).unwrap_or(&"?"), w.get(3).unwrap_or(&"?")), json!({"kind": "first-call", "fn": name, "a": a, "b": b}));
+                    let first = if *name == "other" { other_first_calls().get(*a as usize * 64 + *b as usize).map(|x| x.0.clone()).unwrap_or_default() } else if name.ends_with('2') { format!("{0}({1}, {1}) and {0}({2}, {2})", name.trim_end_matches('2'), sqn(*a), sqn(*b)) } else if name.ends_with('T') { format!("{}({}, {}) on another thread", name.trim_end_matches('T'), sqn(*a), sqn(*b)) } else { format!("{name}({}, {})", sqn(*a), sqn(*b)) };
+                    fail(run, name.trim_end_matches(|c| c == '2' || c == 'T'), "answer depends on the first call(s) made in the process", format!("in a fresh process, after {first}: {}", w[1..].join(" ")), json!({"kind": "first-call", "fn": name, "a": a, "b": b}));
                 } else if !txt.contains("OK") {
                     eprintln!("MACHINERY FAILURE: first-call worker printed neither OK nor MISMATCH: {txt}");
                     std::process::exit(2);
@@ -425,7 +498,7 @@ pub fn fresh_process_first_calls(run: &Run, only: Option<(&str, u8, u8)>) {
     });
 }
 
-pub const RULE: &str = "complete enumeration: between and line on all 64x64 pairs (line(a,a) is not judged: the statement defines line only for two squares); king, knight moves and rook, bishop rays on 64 squares; pawn attacks / quiets / moves on 64 squares x 2 colours x all 16 occupancies of the two push and two capture squares x noise on the irrelevant squares (none, all, two checkerboards, every single irrelevant square, every pair of irrelevant squares, population ladders (k lowest / highest / spread irrelevant squares for every k), every triple of irrelevant squares within distance 2 of the pawn); rank, file, adjacent-file sets and EDGES; all 16 square stepping helpers on 64 squares; Rank/File wrapping helpers; make_square/get_rank/get_file bijection; Rank/File::from_index on a catalogue of large indices (0..=4096, 2^k +- d for every k <= 63, usize::MAX - d); call-order independence of line and between: every ordered pair of calls over the complete 64x64 domain (16.7 M pairs each; the earlier call may be the not-judged line(a, a)), in process, and again with each of the 2 x 4096 possible FIRST calls made in a fresh child process (initial state of every lazily built table or cache) followed by the complete domain. Oracle: definitions on integer (file, rank) coordinates. distinct_nontrivial = cases whose expected answer is a non-empty set or an edge case (None / wrap)";
+pub const RULE: &str = "complete enumeration: between and line on all 64x64 pairs (line(a,a) is not judged: the statement defines line only for two squares); king, knight moves and rook, bishop rays on 64 squares; pawn attacks / quiets / moves on 64 squares x 2 colours x all 16 occupancies of the two push and two capture squares x noise on the irrelevant squares (none, all, two checkerboards, every single irrelevant square, every pair of irrelevant squares, population ladders (k lowest / highest / spread irrelevant squares for every k), every triple of irrelevant squares within distance 2 of the pawn); rank, file, adjacent-file sets and EDGES; all 16 square stepping helpers on 64 squares; Rank/File wrapping helpers; make_square/get_rank/get_file bijection; Rank/File::from_index on a catalogue of large indices (0..=4096, 2^k +- d for every k <= 63, usize::MAX - d); call-order independence of line and between: every ordered pair of calls over the complete 64x64 domain (16.7 M pairs each; the earlier call may be the not-judged line(a, a)), in process, and again with each of the 2 x 4096 possible FIRST calls made in a fresh child process (initial state of every lazily built table or cache) followed by the complete domain; also two degenerate first calls f(a, a), f(b, b) for b = a+1, a+8, a+9, 63-a, the first call made on another thread, and one first call of every OTHER geometry function (king, knight, rays, pawn attacks / quiets / moves, rank, file, adjacent files: ~1,180 calls) followed by the enumeration of the module (pawn noise reduced to its five base patterns there); Square::new on all 256 byte values. Oracle: definitions on integer (file, rank) coordinates. distinct_nontrivial = cases whose expected answer is a non-empty set or an edge case (None / wrap)";
 
 pub fn run(tier: Tier) -> i32 {
     let run = Arc::new(Run::new("C16", tier, COUNTERS));
@@ -445,7 +518,7 @@ pub fn replay(case: &Value) -> i32 {
     // the whole domain is enumerated in well under a second: replay = run it all again
     let run = Arc::new(Run::new("C16", Tier::Quick, COUNTERS));
     if case["kind"] == "first-call" {
-        let name = if case["fn"] == "line" { "line" } else { "between" };
+        let name: &str = match case["fn"].as_str().unwrap_or("") { "line" => "line", "line2" => "line2", "lineT" => "lineT", "between2" => "between2", "betweenT" => "betweenT", "other" => "other", _ => "between" };
         fresh_process_first_calls(&run, Some((name, case["a"].as_u64().unwrap_or(0) as u8, case["b"].as_u64().unwrap_or(0) as u8)));
         return crate::replay_verdict(&run);
     }
